@@ -8,7 +8,7 @@
 use std::cell::Cell;
 use std::collections::HashMap;
 use std::panic::{catch_unwind, AssertUnwindSafe};
-use std::sync::atomic::Ordering;
+use std::sync::atomic::{AtomicUsize, Ordering};
 use std::sync::{Arc, Condvar, Mutex, OnceLock};
 
 use libc::c_int;
@@ -470,6 +470,62 @@ pub enum Choice {
     Deliver(usize, c_int),
 }
 
+/// The schedule of the run in progress, kept where a SIGABRT handler can reach it: the code under
+/// test may abort the process (half_lock.rs: reader-count overflow guard) and that is data too.
+static ABORT_LEN: AtomicUsize = AtomicUsize::new(0);
+static ABORT_RUNS: AtomicUsize = AtomicUsize::new(0);
+static mut ABORT_BUF: [u8; 32768] = [0; 32768];
+
+fn abort_note_reset() {
+    ABORT_LEN.store(0, Ordering::SeqCst);
+    ABORT_RUNS.fetch_add(1, Ordering::SeqCst);
+}
+
+fn abort_note_push(code: &str) {
+    let l = ABORT_LEN.load(Ordering::SeqCst);
+    let b = code.as_bytes();
+    if l + b.len() + 1 < 32768 {
+        unsafe {
+            let base = std::ptr::addr_of_mut!(ABORT_BUF) as *mut u8;
+            std::ptr::copy_nonoverlapping(b.as_ptr(), base.add(l), b.len());
+            *base.add(l + b.len()) = b' ';
+        }
+        ABORT_LEN.store(l + b.len() + 1, Ordering::SeqCst);
+    }
+}
+
+extern "C" fn on_sigabrt(_: c_int) {
+    // async-signal-safe: write(2) only
+    unsafe {
+        let head = b"\nLIBRARY-ABORT schedule=";
+        libc::write(2, head.as_ptr() as *const libc::c_void, head.len());
+        let base = std::ptr::addr_of!(ABORT_BUF) as *const u8;
+        libc::write(2, base as *const libc::c_void, ABORT_LEN.load(Ordering::SeqCst));
+        let mut num = [0u8; 24];
+        let mut n = ABORT_RUNS.load(Ordering::SeqCst);
+        let mut i = num.len();
+        loop {
+            i -= 1;
+            num[i] = b'0' + (n % 10) as u8;
+            n /= 10;
+            if n == 0 {
+                break;
+            }
+        }
+        let mid = b"\nLIBRARY-ABORT run=";
+        libc::write(2, mid.as_ptr() as *const libc::c_void, mid.len());
+        libc::write(2, num[i..].as_ptr() as *const libc::c_void, num.len() - i);
+        libc::write(2, b"\n".as_ptr() as *const libc::c_void, 1);
+    }
+}
+
+/// Called once by the scheduler drivers.
+pub fn install_abort_reporter() {
+    unsafe {
+        libc::signal(libc::SIGABRT, on_sigabrt as extern "C" fn(c_int) as usize);
+    }
+}
+
 impl Choice {
     pub fn code(&self) -> String {
         match self {
@@ -624,6 +680,7 @@ fn fd_readable(fd: c_int) -> bool {
 pub type Body = Box<dyn FnOnce() + Send + 'static>;
 
 pub fn run(bodies: Vec<Body>, strategy: &mut dyn Strategy, cfg: &RunCfg) -> RunResult {
+    abort_note_reset();
     install();
     let s = sched();
     let n = bodies.len();
@@ -893,6 +950,7 @@ pub fn run(bodies: Vec<Body>, strategy: &mut dyn Strategy, cfg: &RunCfg) -> RunR
             break;
         }
         let c = choices[idx].clone();
+        abort_note_push(&c.code());
         schedule.push(c.clone());
         step += 1;
         let hint = match &c {
